@@ -8,10 +8,10 @@ import ILV.Lemmas.StoreInv
 namespace ILV.Store
 open ILV ILV.Batch ILV.Props.C31
 
-/-- admissible tuples of a relation whose columns have kinds `ks r`: that kind vector, non-empty, only
-    kinds an arrow column reproduces, no non-finite float, 64-bit float patterns. -/
+/-- admissible tuples of a relation whose columns have kinds `ks r`: that kind vector (any kinds, any
+    arity), no non-finite float, 64-bit float patterns. -/
 def Admissible (ks : String → List DType) (r : String) (t : Tuple) : Prop :=
-  t.map dataType = ks r ∧ ks r ≠ [] ∧ (ks r).all safeKind = true ∧ t.all jsonSafe = true ∧ TupleWF t
+  t.map dataType = ks r ∧ t.all jsonSafe = true ∧ TupleWF t
 
 instance (ks : String → List DType) (r : String) (t : Tuple) : Decidable (Admissible ks r t) := by
   unfold Admissible; infer_instance
@@ -20,14 +20,13 @@ theorem walCodec_safe (u : Update) (h : u.data.all jsonSafe = true) : walCodec u
   simp [walCodec, h]
 
 theorem realCodec_ok (ks : String → List DType) : CodecOk realCodec (Admissible ks) where
-  wal := fun _ u h => walCodec_safe u h.2.2.2.1
+  wal := fun _ u h => walCodec_safe u h.2.1
   batch := fun r us h => by
     cases us with
     | nil => rfl
     | cons u us =>
-      have hu := h u (by simp)
-      exact batchCodec_homog (ks r) hu.2.1 hu.2.2.1 (u :: us) (fun v hv => (h v hv).1)
+      exact batchCodec_homog (ks r) (u :: us) (fun v hv => (h v hv).1)
 
-theorem Admissible_wf (ks : String → List DType) : ∀ r t, Admissible ks r t → TupleWF t := fun _ _ h => h.2.2.2.2
+theorem Admissible_wf (ks : String → List DType) : ∀ r t, Admissible ks r t → TupleWF t := fun _ _ h => h.2.2
 
 end ILV.Store
